@@ -3,6 +3,26 @@
 // C19: the operations of C15_chrono_parse.cpp re-decided with the store instrumentation (see C19_enum_utf.cpp for the argument): no store inside
 // the operation window hits a mutable module-level object of the linked code, for every input within the bound.
 #include "C15_chrono_parse.cpp"
+// wide-string front end of the ISO parser (ParseIsoUtc transcodes to a temporary UTF-8 string first): same verdict and value as the
+// 8-bit path on the same text, and - the C19 reading - no store to module-level state while doing so.  The text is the template
+// 2024-02-29T23:59:59Z with its last four characters (":59Z") replaced by arbitrary bytes in[0..3] - the symbolic characters come after the
+// temporary string has left its small-buffer storage, which keeps the encoding of the growth step concrete.
+template <class Ch> static inline int prop_wide(const unsigned char* in, unsigned char* out) {
+	char n[20] = {'2','0','2','4','-','0','2','-','2','9','T','2','3',':','5','9',':','5','9','Z'};
+	n[19] = (char)in[0];
+	Ch w[20]; for (int i = 0; i < 20; i++) w[i] = static_cast<Ch>(static_cast<unsigned char>(n[i]));
+	chr::time_point<chr::system_clock, chr::seconds> tw{chr::seconds(4242)}, tn{chr::seconds(4242)};
+	verif_symbolic_phase();
+	int rw = vh::outcome([&] { Convert::Detail::To(std::basic_string_view<Ch>(w, 20), tw); });
+	int rn = vh::outcome([&] { Convert::Detail::To(std::string_view(n, 20), tn); });
+	out[0] = (unsigned char)rw; out[1] = (unsigned char)rn; vh::wr(out + 2, (int64_t)tw.time_since_epoch().count());
+	if (in[0] >= 0x80) return rw == vh::INVALID_ARGUMENT && tw == tn;   // not ASCII: rejected on both paths
+	return rw == rn && tw == tn;
+}
+VH_EXPORT int vp_h19_iso_u16(const unsigned char* in, unsigned char* out) { return prop_wide<char16_t>(in, out); }
+VH_EXPORT int vp_h19_iso_u32(const unsigned char* in, unsigned char* out) { return prop_wide<char32_t>(in, out); }
+//@ OBL {"name": "h19_iso_u16", "prop": "vp_h19_iso_u16", "in": 1, "out": 16, "unwind": 10, "unwind_fn": {"prop_wide|Encode|vp_h19_iso": 22}, "unwind_models": 48, "fs": 32, "backends": ["kissat", "default"], "cap_s": 900, "bounds": "20 UTF-16 code units: 2024-02-29T23:59:59Z with the last 2 characters arbitrary in 0..255 (more symbolic characters: solver memory > 12 GB)", "desc": "[C19 no-shared-write reading] To(u16string_view, time_point<seconds>&) == the 8-bit path on the same text; no store to shared state in the transcoding front end", "tier": "quick"}
+//@ OBL {"name": "h19_iso_u32", "prop": "vp_h19_iso_u32", "in": 1, "out": 16, "unwind": 10, "unwind_fn": {"prop_wide|Encode|vp_h19_iso": 22}, "unwind_models": 48, "fs": 32, "backends": ["kissat", "default"], "cap_s": 900, "bounds": "20 UTF-32 code units, same template", "desc": "[C19 no-shared-write reading] To(u32string_view, time_point<seconds>&) == the 8-bit path", "tier": "quick"}
 //@ OBL {"name": "h19_h15a_s_ns", "prop": "vp_h15a_s_ns", "in": 16, "out": 16, "unwind": 6, "backends": ["kissat", "default", "cvc5", "z3"], "cap_s": 900, "bounds": "every 64-bit count (multiplication-only direction)", "desc": "[C19 no-shared-write reading] SafeDurationCast seconds -> nanoseconds: exact or out_of_range, never wraps", "tier": "quick"}
 //@ OBL {"name": "h19_h15d_s", "prop": "vp_h15d_s", "out": 16, "unwind": 8, "backends": ["kissat", "default", "cvc5", "z3"], "cap_s": 900, "in": 20, "bounds": "20-character buffers 20??-??-??T??:??:??? with the 13 remaining characters arbitrary (thorough: all 15 non-separator characters arbitrary)", "desc": "[C19 no-shared-write reading] To(string_view, time_point<seconds>&): calendar-valid -> exact reference instant; out-of-range fields (incl. Feb 29 of non-leap years) -> invalid_argument", "cassume": ["in[4]=='-' && in[7]=='-' && in[10]=='T' && in[13]==':' && in[16]==':'", "in[0]=='2' && in[1]=='0'"], "tier": "quick"}
 //@ VEC * 0000000000000000000000000000000000000000
@@ -11,3 +31,7 @@
 //@ VEC * 0550543130530000000000
 //@ VEC * 082d50315754314d00
 //@ VEC * 03393939000000000000000000
+//@ VEC h19_iso_u16 5a
+//@ VEC h19_iso_u16 00
+//@ VEC h19_iso_u32 5a
+//@ VEC h19_iso_u32 c3
